@@ -7,6 +7,7 @@ import (
 	"math/rand"
 	"os"
 	"sort"
+	"strings"
 	"sync"
 
 	"verifharness/drv"
@@ -124,6 +125,15 @@ func walkAll(run *evid.Run, cfgs []sessrep.CfgRec, perCfg, steps int) []sessrep.
 					run.Report(evid.Div{Prop: "C04", Key: "hang:walk:" + stuck.Where, Msg: fmt.Sprintf("random walk: no reply after %s - %v\n%s", last, stuck, stuck.Dump),
 						Replay: map[string]interface{}{"engine": "trace", "cfg": cfg, "walk_seed": seed, "transcript": hist}})
 					// the server is wedged on that connection: use a fresh one
+					srv.Stop()
+					srv = drv.Start(sessrep.DrvCfg(cfg))
+					continue
+				}
+				if err != nil && strings.Contains(err.Error(), "TLS handshake after 220 failed") {
+					// the server said 220 to STARTTLS and then did not do a TLS handshake
+					// (for instance because the connection was under TLS already)
+					run.Report(evid.Div{Prop: "C10", Key: "walk:starttls-220-without-handshake", Msg: fmt.Sprintf("random walk: STARTTLS answered 220, then %v; transcript %v", err, hist),
+						Replay: map[string]interface{}{"engine": "trace", "cfg": cfg, "walk_seed": seed, "transcript": hist}})
 					srv.Stop()
 					srv = drv.Start(sessrep.DrvCfg(cfg))
 					continue
